@@ -130,13 +130,13 @@ def parse_coverage(out):
     return cov
 
 
-def mc(run, spec, cfg_text, env, workers=8, timeout=None, need_actions=(), label=None):
+def mc(run, spec, cfg_text, env, workers=8, timeout=None, need_actions=(), label=None, coverage=True):
     """exhaustive model checking; an invariant violation of the *model* on the unchanged tree is a
     tool error (the model is wrong), never a verdict about the code"""
     t0 = time.time()
     if timeout is None:
         timeout = 1500 if run.quick else 3600     # (other jobs may share the machine)
-    rc, out = tlc(spec, cfg_text, env, workers=workers, timeout=timeout, coverage=True, tag="mc")
+    rc, out = tlc(spec, cfg_text, env, workers=workers, timeout=timeout, coverage=coverage, tag="mc")
     if rc == 124:
         raise ToolError(f"TLC timeout on {spec}")
     gen, dist = parse_counts(out)
